@@ -392,6 +392,9 @@ def extract_function(fn):
         log.append("rule /%s/ -> '%s' x%d" % (pat, rep, k))
     if fn.get("scope", True):
         body = apply_scope_rule(body, log)
+    for rname in fn.get("refs", []):
+        body, k = re.subn(r"(?<![\w.>])%s\b" % re.escape(rname), "(*%s)" % rname, body)
+        log.append("reference parameter %s -> pointer parameter, uses -> (*%s) x%d" % (rname, rname, k))
 
     # ghost inserts (specification text, anchored on source text)
     for (pat, text, where, cnt) in fn.get("inserts", []):
